@@ -33,6 +33,9 @@ pub struct ElfSpec {
     pub has_sections: bool,
     /// p_vaddr - p_offset of the loadable segment (0 for ordinary shared objects)
     pub bias: u64,
+    /// the note segment / section announces this many bytes less than the notes take: the last note is cut off
+    /// (a malformed image: readers have to stop at the note that does not parse)
+    pub note_cut: usize,
     /// file offset at which the (first) loadable segment begins: 0 in ordinary images; when it is not, p_vaddr and
     /// p_offset both move by it and `p_vaddr - p_offset` stays the link base
     pub load_off: usize,
@@ -161,7 +164,7 @@ pub fn build(s: &ElfSpec) -> Built {
     }
     sects.push((b".text", 1, 6, text_off, s.text.len(), 0, 16));
     if s.note_section && !notes.is_empty() {
-        sects.push((b".note.gnu.build-id", 7, 2, notes_off, notes.len(), 0, 4));
+        sects.push((b".note.gnu.build-id", 7, 2, notes_off, notes.len().saturating_sub(s.note_cut), 0, 4));
     }
     let dynstr_index = 1 + sects.len() as u32 + s.dyn_section as u32;
     if s.dyn_section {
@@ -209,7 +212,7 @@ pub fn build(s: &ElfSpec) -> Built {
             ph(&mut w, 4, 4, prop_off, prop_seg.len(), 8);
         }
         if s.note_phdr && !notes.is_empty() {
-            ph(&mut w, 4, 4, notes_off, notes.len(), 4);
+            ph(&mut w, 4, 4, notes_off, notes.len().saturating_sub(s.note_cut), 4);
         }
         if s.dyn_phdr {
             ph(&mut w, 2, 6, dyn_off, ndyn * dynsize, 8);
@@ -319,6 +322,7 @@ pub fn gen_spec(r: &mut Rng) -> ElfSpec {
         has_phdrs,
         has_sections,
         bias: *r.pick(&[0u64, 0, 0, 0, 0x1000, 0x400000, 0x10]),
+        note_cut: 0,
         load_off: *Rng::new(r.0 ^ 0x9b05_688c_2b3e_6c1f).pick(&[0usize, 0, 0, 0x34, 0x40, 0xe8, 0x200]),
         text: r.bytes(tlen),
         last_name: r.below(3) as u8,
